@@ -63,6 +63,31 @@ theorem concurrent_call_joins (b : Bool) (tr : List Act) (key e c n : Nat) (o : 
   rw [hc, ht]
   exact ⟨by simp, rfl, rfl, rfl⟩
 
+/-- **Every call attaches to an execution of its key.**  Whatever the state, a call by a new caller leaves
+the caller waiting on an execution that is in flight for exactly the key it called with - the one already
+there, or a new one when the key was free.  (Together with `at_most_one_running`: *the* execution.) -/
+theorem call_attaches (b : Bool) (tr : List Act) (key c n : Nat) (o : Outcome)
+    (hc : (run (init b) tr).callers c = none) :
+    ∃ e, (run (init b) (tr ++ [.call c key n o])).callers c = some ⟨some e, .waiting⟩ ∧
+      InFlight (run (init b) (tr ++ [.call c key n o])) e key := by
+  have h := reachable_inv b tr
+  have e1 : run (init b) (tr ++ [.call c key n o]) = step (run (init b) tr) (.call c key n o) := by
+    rw [run_append]; rfl
+  rw [e1]
+  generalize run (init b) tr = s at *
+  cases ht : s.table key with
+  | some e =>
+    obtain ⟨x, hx, hk, hf⟩ := h.tab key e ht
+    refine ⟨e, ?_, x, ?_, hk, hf⟩ <;> (simp only [step_call]; unfold stepCall; rw [hc, ht])
+    · simp
+    · exact hx
+  | none =>
+    refine ⟨c, ?_, newExec s key n o, ?_, ?_, ?_⟩
+    · simp only [step_call]; unfold stepCall; rw [hc, ht]; simp
+    · simp only [step_call]; unfold stepCall; rw [hc, ht]; simp
+    · unfold newExec; split <;> rfl
+    · unfold newExec; split <;> rfl
+
 /-- **Waiters share the outcome.**  In every reachable state, a caller that joined (or started) execution
 `e` and was not cancelled is either still waiting on the *unfinished* `e`, or holds exactly `e`'s outcome -
 returned value or raised exception - and `e` has finished.  In particular nobody is left waiting on a
@@ -228,7 +253,7 @@ example : (run (init false) demo).callers 3 = some ⟨some 1, .waiting⟩ := by 
 example : (run (init false) demo).created = [1, 4] := by decide
 example : inFlightCount (run (init false) demo) 0 = 1 ∧ inFlightCount (run (init false) demo) 1 = 1 := by decide
 example : InFlight (run (init false) demo) 1 0 := ⟨⟨0, 1, .ret 7, false, false⟩, by decide, rfl, rfl⟩
--- premises of `concurrent_call_joins`
+-- premises of `concurrent_call_joins` / `call_attaches`
 example : (run (init false) demo).callers 5 = none := by decide
 
 /-- ... caller 2 is cancelled, the body passes its last point and finishes -/
